@@ -93,10 +93,6 @@ fn observe(target: Target, bytes: Vec<u8>, conf: Conf) -> Obs {
                     Err(_) => 1,
                 })
             }
-            Target::Untyped(env, ts, _) if false => Ok(match IDLArgs::from_bytes_with_types_with_config(&bytes, &candid_side(env, ts, None).0, &[], &cfg) {
-                Ok(_) => 0,
-                Err(_) => 1,
-            }),
             Target::NoType => Ok(match IDLArgs::from_bytes_with_config(&bytes, &cfg) {
                 Ok(_) => 0,
                 Err(_) => 1,
